@@ -14,10 +14,61 @@ from specs import streams as S
 ASSUMPTIONS = [
     'liveness across the network (the peer eventually sends WINDOW_ADJUST, the loop runs callbacks) is not decided; '
     'proved instead: local progress whenever window and data exist, and replenishment when delivery crosses half',
-    'flat/tagged are uninterpreted; only instances of their recursive definition are assumed (cons, snoc, split)',
+    'flat/tagged/total_bytes are uninterpreted; only instances of their recursive definition are assumed (empty, '
+    'cons, snoc, split), plus total_bytes(s) >= 0, which is proved by induction over the list (base and step are '
+    'solver-checked in extra_checks; the induction principle for finite lists is the trusted step)',
+    'send_inv (_send_window >= 0, _send_pktsize >= 1, chunks_ok(_send_buf)) - writers of the three fields: '
+    'process_open / process_open_confirmation (under contract here: they store exactly the values handed over, and '
+    'their call sites in connection.py must hand over the initial-window / maximum-packet-size fields of the packet), '
+    '_flush_send_buf and _process_window_adjust (under contract here), write() (appends a non-empty chunk: under '
+    'contract in C07), _close_send / _discard (reset the buffer to []), __init__ (stores window 0 and packet size 0: '
+    'send_inv does not hold before the open handshake; _flush_send_buf is reachable before that only through '
+    'write(), which refuses unless _send_state == "open", a state entered only by process_open_confirmation / '
+    '_finish_open_request after the limits were stored)',
+    'INV-CREDIT (bytes buffered while reading is paused fit into the advertised window) is assumed by _accept_data and '
+    '_flush_recv_buf and preserved by them; it is ESTABLISHED by the window test of _process_data / '
+    '_process_extended_data, which is the obligation accepted-only-within-advertised-credit = known finding F4.  On '
+    'the pinned tree the proofs about the paused path (window never negative when a paused buffer is flushed, the '
+    'precondition len(data) <= _recv_window of every _deliver_data call in _flush_recv_buf) are therefore conditional '
+    'on F4 being repaired: natively, paused + window 1000 + DATA 400 + DATA 900 + resume drives the window to -300. '
+    'Other writers of _recv_buf / _recv_window: _discard_recv (clears the buffer), __init__ (empty buffer, window = '
+    'initial window), SSHTunTapChannel._accept_data (strips 4 bytes, then the verified method)',
+    'session callbacks: data_received may pause reading (arbitrary new _recv_paused) but does not re-enter the channel '
+    'otherwise; _pause_resume_writing calls session.pause_writing / resume_writing, application code that is assumed '
+    'not to call write() re-entrantly (the stub changes _send_paused only); write_eof() from _flush_recv_buf touches '
+    'the send side only',
+    'channel.send_packet is abstracted at the emission site (ghost log): that it silently returns when _send_chan is '
+    'None and may propagate errors of the connection is C07 (SSHChannel.send_packet contract), not restated here',
+    'the stream-layer pause at one window of buffered data (stream.py) is covered by C19, not here',
 ]
 
 PROP = 'C08'
+
+# sum of the chunk lengths of a chunk list: total recursive function, the solver sees it uninterpreted plus the
+# unfolding instances the contracts ask for (empty / cons / snoc) and `total >= 0`, which is proved by induction
+# over the list in extra_checks (base and step are solver-checked there)
+total = z3.Function('total_bytes', S.SEQ, z3.IntSort())
+
+
+def total_empty():
+    return total(z3.Empty(S.SEQ)) == 0
+
+
+def total_snoc(s, x):
+    return total(z3.Concat(s, z3.Unit(x))) == total(s) + z3.Length(S.data_of(x))
+
+
+def total_cons(s):
+    return z3.Implies(z3.Length(s) > 0, total(s) == z3.Length(S.data_of(s[0])) + total(S.tail(s)))
+
+
+def total_nonneg(s):
+    return total(s) >= 0
+
+
+def emitted_bytes(c):
+    """bytes of DATA / EXTENDED_DATA put on the wire by this activation (ghost log of the emission site)"""
+    return total(c.new('ghost_emitted')) - total(c.old('ghost_emitted'))
 
 
 def send_inv(c, new=True):
@@ -94,6 +145,7 @@ def flush_lemmas(c):
     if E1.decl().kind() == z3.Z3_OP_SEQ_CONCAT and E1.num_args() == 2 and E1.arg(0).eq(E):
         x = E1.arg(1).arg(0)
         out.append(S.ax_snoc(E, x))
+        out.append(total_snoc(E, x))
     ht = S.head_tail(B1)
     if ht is not None:
         # split case: new head chunk y = (rest, t) followed by the old tail
@@ -126,6 +178,9 @@ flush_send_buf = Spec(
         modifies=['ghost_emitted'],
         invariant=lambda c: z3.And(send_inv(c),
                                    c.new('_send_pktsize') == c.at_entry('_send_pktsize'),
+                                   # the window is charged exactly for what went out
+                                   c.new('_send_window') + total(c.new('ghost_emitted')) ==
+                                   c.at_entry('_send_window') + total(c.at_entry('ghost_emitted')),
                                    conservation(c, c.at_entry('ghost_emitted'), c.at_entry('_send_buf'))),
         variant=lambda c: c.new('_send_window'),
         lemmas=flush_lemmas)},
@@ -134,6 +189,9 @@ flush_send_buf = Spec(
               'ghost_emitted'],
     ensures=[
         ('window-never-negative', lambda c: c.new('_send_window') >= 0),
+        ('window-charged-exactly-for-the-bytes-emitted',
+         lambda c: c.new('_send_window') == c.old('_send_window') - emitted_bytes(c)),
+        ('max-packet-size-untouched', lambda c: c.new('_send_pktsize') == c.old('_send_pktsize')),
         ('flushed-all-the-window-allows',
          lambda c: z3.Or(z3.Length(c.new('_send_buf')) == 0, c.new('_send_window') == 0)),
         ('nothing-lost-or-duplicated',
@@ -153,15 +211,50 @@ def flush_contract_stub(cx):
 
 flush_contract_stub.modifies = tuple(flush_send_buf.modifies)
 
+def wire_uint32(c, off=0):
+    """the uint32 field `off` bytes behind the read position the packet had when the handler was entered"""
+    from pyvc.builtins_model import unbe
+    p = c.old_state.rec(c.argv('packet')).fields
+    return unbe(z3.Extract(p['_packet'].z, p['_idx'].z + off, 4))
+
+
+def adjust_then_flush_stub(cx):
+    """_flush_send_buf called from _process_window_adjust: at that moment the window is the old window plus the
+    `bytes to add` field of THIS packet (RFC 4254 5.2), nothing else; then the verified flush contract applies"""
+    ex = cx.ex
+    c0 = Ctx(ex, ex.entry_state, cx.st, ex.self_ref, args=dict(ex.entry_state.env))
+    cx.require('window-grows-exactly-by-the-adjust-field-of-the-packet',
+               z3.And(cx.selff('_send_window').z == c0.old('_send_window') + wire_uint32(c0),
+                      cx.selff('_send_pktsize').z == c0.old('_send_pktsize')))
+    return contract_stub(lambda: flush_send_buf)(cx)
+
+
+adjust_then_flush_stub.modifies = tuple(flush_send_buf.modifies)
+adjust_then_flush_stub.spec_getter = lambda: flush_send_buf
+
+
+def window_adjust_post(c):
+    """RFC 4254 5.2: after the adjust the sender may send `bytes to add` more than before: what the window is now
+    plus what this activation already put on the wire is the old window plus the field of the packet"""
+    return z3.And(c.new('_send_window') + emitted_bytes(c) == c.old('_send_window') + wire_uint32(c),
+                  c.new('_send_pktsize') == c.old('_send_pktsize'),
+                  z3.BoolVal(len(c.calls('_flush_send_buf')) == 1))
+
+
+def window_adjust_refused(c):
+    """a refused adjust grants nothing"""
+    return z3.And(c.new('_send_window') == c.old('_send_window'), z3.BoolVal(not c.calls('_flush_send_buf')))
+
+
 process_window_adjust = Spec(
     PROP, 'channel', 'SSHChannel._process_window_adjust', self_class='SSHChannel',
     params=dict(_pkttype='int', _pktid='int', packet='obj:SSHPacket'),
     classes=dict(CHAN_CLASSES, **PACKET_CLASSES), inline=dict(PACKET_INLINE), truthy=PACKET_TRUTHY,
-    stubs={'self._flush_send_buf': contract_stub(lambda: flush_send_buf)},
+    stubs={'self._flush_send_buf': adjust_then_flush_stub},
     requires=lambda c: z3.And(send_inv(c, new=False), packet_wf(c, c.argv('packet'))),
     ensures=[('class-inv', lambda c: send_inv(c)),
-             ('window-grows-only-by-adjust', lambda c: z3.BoolVal(True))],
-    raises={'ProtocolError': True, 'PacketDecodeError': True})
+             ('window-grows-exactly-by-the-adjust-of-the-packet-then-flush', window_adjust_post)],
+    raises={'ProtocolError': window_adjust_refused, 'PacketDecodeError': window_adjust_refused})
 
 
 # ------------------------------------------------------------------ receive side
@@ -171,11 +264,62 @@ def recv_inv(c, new=True):
                   f('_recv_window') <= f('_init_recv_window'))
 
 
+def credit_inv(c, new=True):
+    """INV-CREDIT: what was accepted but is still buffered (reading paused) fits into the window that is currently
+    advertised - asyncssh charges _recv_window on *delivery*, so this is what keeps the window from going negative
+    when the buffer is flushed.  Assumed by _accept_data / _flush_recv_buf, preserved by them; ESTABLISHED by the
+    window test of _process_data / _process_extended_data, which is exactly obligation
+    `accepted-only-within-advertised-credit` (known finding F4 on the pinned tree)."""
+    f = c.new if new else c.old
+    return z3.And(total(f('_recv_buf')) >= 0, total(f('_recv_buf')) <= f('_recv_window'))
+
+
+def decoder_inv(c):
+    """set_encoding creates the decoder together with the encoding (only writer of both fields)"""
+    return z3.Implies(c.truthy(c.oldv('_encoding'), c.old_state), z3.Not(c.is_none(c.oldv('_decoder'))))
+
+
 def accept_stub(cx):
     return [Out(event=('accept', tuple(cx.args)))]
 
 
 accept_stub.modifies = ()
+EXT_FIELDS = dict(CHAN_FIELDS, _read_datatypes='dict[int,bool]')       # a set of ints: only membership is used
+EXT_CLASSES = dict(CHAN_CLASSES, SSHChannel=EXT_FIELDS, **PACKET_CLASSES)
+
+
+def wire_string(c, off=0):
+    """the `string` field `off` bytes behind the read position the packet had on entry"""
+    from pyvc.builtins_model import unbe
+    p = c.old_state.rec(c.argv('packet')).fields
+    P, i0 = p['_packet'].z, p['_idx'].z + off
+    return z3.Extract(P, i0 + 4, unbe(z3.Extract(P, i0, 4)))
+
+
+def accepted(c, with_type):
+    """exactly one chunk is accepted: the data string of THIS packet, unaltered (with its type code), only while the
+    channel is open for receiving, and only if it fits into the advertised window (RFC 4254 5.2)"""
+    ev = c.events('accept')
+    if len(ev) != 1:
+        return z3.BoolVal(False)
+    a = ev[0][1]
+    data = wire_string(c, 4 if with_type else 0)
+    conj = [a[0].z == data, z3.Length(a[0].z) <= c.old('_recv_window'),
+            c.old('_recv_state') == z3.StringVal('open'), c.new('_recv_window') == c.old('_recv_window')]
+    if with_type:
+        dt = wire_uint32(c)
+        rd = c.oldv('_read_datatypes')
+        conj += [z3.BoolVal(len(a) == 2), a[1].z == dt if len(a) == 2 and hasattr(a[1], 'z') else z3.BoolVal(False),
+                 z3.Select(rd.dom, dt)]
+    else:
+        conj.append(z3.BoolVal(len(a) == 1))
+    return z3.And(conj)
+
+
+def refused(c):
+    return z3.And(z3.BoolVal(len(c.events('accept')) == 0), c.new('_recv_window') == c.old('_recv_window'),
+                  c.new('_recv_buf') == c.old('_recv_buf'))
+
 
 process_data = Spec(
     PROP, 'channel', 'SSHChannel._process_data', self_class='SSHChannel',
@@ -183,20 +327,28 @@ process_data = Spec(
     classes=dict(CHAN_CLASSES, **PACKET_CLASSES), inline=dict(PACKET_INLINE), truthy=PACKET_TRUTHY,
     stubs={'self._accept_data': accept_stub},
     requires=lambda c: z3.And(recv_inv(c, new=False), packet_wf(c, c.argv('packet'))),
-    ensures=[('accepted-only-within-window',
-              lambda c: z3.And(len(c.events('accept')) == 1,
-                               z3.Length(c.events('accept')[0][1][0].z) <= c.old('_recv_window'),
-                               c.old('_recv_state') == z3.StringVal('open')))],
-    raises={'ProtocolError': lambda c: z3.BoolVal(len(c.events('accept')) == 0),
-            'PacketDecodeError': lambda c: z3.BoolVal(len(c.events('accept')) == 0)})
+    ensures=[('accepted-only-within-window', lambda c: accepted(c, False))],
+    raises={'ProtocolError': refused, 'PacketDecodeError': refused})
+
+process_extended_data = Spec(
+    PROP, 'channel', 'SSHChannel._process_extended_data', self_class='SSHChannel',
+    params=dict(_pkttype='int', _pktid='int', packet='obj:SSHPacket'),
+    classes=EXT_CLASSES, inline=dict(PACKET_INLINE), truthy=PACKET_TRUTHY,
+    stubs={'self._accept_data': accept_stub},
+    requires=lambda c: z3.And(recv_inv(c, new=False), packet_wf(c, c.argv('packet'))),
+    ensures=[('accepted-only-within-window-and-only-a-readable-data-type', lambda c: accepted(c, True))],
+    raises={'ProtocolError': refused, 'PacketDecodeError': refused})
 
 
 # ------------------------------------------------------------------ delivery / replenishment
 def session_data_stub(cx):
-    return [Out(event=('deliver', tuple(cx.args)))]
+    """session.data_received: application code; it may pause reading (pause_reading() only sets the flag)"""
+    me = cx.ex.self_ref
+    decl = cx.ex.spec.classes[cx.st.rec(me).cls]['_recv_paused']
+    return [Out(osets=[(me, '_recv_paused', cx.fresh(decl, 'paused_by_app'))], event=('deliver', tuple(cx.args)))]
 
 
-session_data_stub.modifies = ()
+session_data_stub.modifies = ('_recv_paused',)
 
 deliver_data = Spec(
     PROP, 'channel', 'SSHChannel._deliver_data', self_class='SSHChannel',
@@ -206,11 +358,8 @@ deliver_data = Spec(
            'self._decoder.decode': may_raise(ret('str', 'decoded'), 'UnicodeDecodeError'),
            'self._session.data_received': session_data_stub},
     requires=lambda c: z3.And(recv_inv(c, new=False), z3.Length(c.arg('data')) <= c.old('_recv_window'),
-                              c.old('_init_recv_window') < 2 ** 32,
-                              # set_encoding creates the decoder together with the encoding
-                              z3.Implies(c.truthy(c.oldv('_encoding'), c.old_state),
-                                         z3.Not(c.is_none(c.oldv('_decoder'))))),
-    modifies=['_recv_window'],
+                              c.old('_init_recv_window') < 2 ** 32, decoder_inv(c)),
+    modifies=['_recv_window', '_recv_paused'],
     ensures=[
         # "as long as the application keeps reading the window is replenished": after a delivery the advertised
         # window is never left below half of the initial window
@@ -224,36 +373,118 @@ deliver_data = Spec(
         ('no-adjust-means-plain-decrement', lambda c: z3.Or(
             z3.BoolVal(len(c.events('adjust')) == 1),
             c.new('_recv_window') == c.old('_recv_window') - z3.Length(c.arg('data')))),
+        # the same two clauses without reference to the event log (this is what callers may rely on)
+        ('window-charged-for-the-delivery-or-restored', lambda c: z3.Or(
+            c.new('_recv_window') == c.old('_recv_window') - z3.Length(c.arg('data')),
+            c.new('_recv_window') == c.old('_init_recv_window'))),
         ('delivered-exactly-once', lambda c: z3.Or(
             c.is_none(c.oldv('_session')), z3.BoolVal(len(c.events('deliver')) == 1))),
         ('class-inv', lambda c: recv_inv(c)),
     ],
     raises={'ProtocolError': True})
 
+
+def accept_lemmas(c):
+    x = to_z3(VTuple([c.argv('data'), c.argv('datatype')]), S.CH)
+    return [total_snoc(c.old('_recv_buf'), x)]
+
+
+def accept_post(c):
+    """a chunk that is accepted is buffered at the END of the receive buffer (reading paused) XOR handed to
+    _deliver_data exactly once, unaltered (reading not paused) - never dropped, never both.  The only chunks that
+    vanish are empty ones and those arriving after the application closed the channel (documented behaviour)."""
+    x = to_z3(VTuple([c.argv('data'), c.argv('datatype')]), S.CH)
+    b0, b1 = c.old('_recv_buf'), c.new('_recv_buf')
+    dl = c.calls('_deliver_data')
+    closed = z3.Or(c.old('_send_state') == z3.StringVal('close_pending'), c.old('_send_state') == z3.StringVal('closed'))
+    dropped = z3.Or(z3.Length(c.arg('data')) == 0, closed)
+    paused = c.truthy(c.oldv('_recv_paused'), c.old_state)
+    n = len(dl)
+    handed = z3.BoolVal(False)
+    if n == 1:
+        a = dl[0]['args']
+        handed = z3.And(a[0].z == c.arg('data'), c.eq(a[1], c.argv('datatype')))
+    return z3.And(
+        z3.Implies(dropped, z3.And(b1 == b0, z3.BoolVal(n == 0))),
+        z3.Implies(z3.And(z3.Not(dropped), paused), z3.And(b1 == z3.Concat(b0, z3.Unit(x)), z3.BoolVal(n == 0))),
+        z3.Implies(z3.And(z3.Not(dropped), z3.Not(paused)), z3.And(b1 == b0, handed)))
+
+
 accept_data = Spec(
     PROP, 'channel', 'SSHChannel._accept_data', self_class='SSHChannel',
     params=dict(data='bytes', datatype='opt[int]'),
     classes=CHAN_CLASSES, falsy_sorts={'Any'},
     stubs={'self._deliver_data': contract_stub(lambda: deliver_data)},
-    requires=lambda c: z3.And(recv_inv(c, new=False), z3.Length(c.arg('data')) <= c.old('_recv_window'),
-                              c.old('_init_recv_window') < 2 ** 32,
-                              z3.Implies(c.truthy(c.oldv('_encoding'), c.old_state),
-                                         z3.Not(c.is_none(c.oldv('_decoder'))))),
-    ensures=[('buffered-when-paused-in-order', lambda c: z3.Or(
-        c.new('_recv_buf') == c.old('_recv_buf'),
-        c.new('_recv_buf') == z3.Concat(c.old('_recv_buf'), z3.Unit(
-            to_z3(VTuple([c.argv('data'), c.argv('datatype')]), S.CH)))))],
+    # len(data) <= credit: what _process_data / _process_extended_data have to guarantee (see credit_inv)
+    requires=lambda c: z3.And(recv_inv(c, new=False), credit_inv(c, new=False),
+                              z3.Length(c.arg('data')) <= c.old('_recv_window') - total(c.old('_recv_buf')),
+                              c.old('_init_recv_window') < 2 ** 32, decoder_inv(c)),
+    lemmas=accept_lemmas,
+    ensures=[('buffered-at-the-end-xor-delivered-never-dropped', accept_post),
+             ('class-inv', lambda c: recv_inv(c)),
+             ('buffered-bytes-stay-within-the-advertised-window', lambda c: credit_inv(c))],
     raises={'ProtocolError': True})
 
 
+# ------------------------------------------------------------------ the paused path: resume_reading -> _flush_recv_buf
+FLUSH_FIELDS = dict(CHAN_FIELDS, _recv_paused='pyobj', _loop='opaque:Loop')
+FLUSH_CLASSES = dict(CHAN_CLASSES, SSHChannel=FLUSH_FIELDS)
+
+
+def flush_recv_lemmas(c):
+    """unfolding of total_bytes / the list at the loop-head buffer B: B == [B[0]] ++ B[1:]"""
+    B = c.ex.get_field(c.head, c.self_ref, '_recv_buf').z
+    return [S.ax_eta(B), total_cons(B), total_nonneg(S.tail(B)), total_empty()]
+
+
+def send_side_untouched_stub(cx):
+    """write_eof() (automatic EOF echo): send side only"""
+    return [Out(event=('write_eof', ()))]
+
+
+send_side_untouched_stub.modifies = ()
+
+flush_recv_buf = Spec(
+    PROP, 'channel', 'SSHChannel._flush_recv_buf', self_class='SSHChannel',
+    params=dict(exc='opt[opaque:Exc]'), classes=FLUSH_CLASSES,
+    stubs={'self._deliver_data': contract_stub(lambda: deliver_data),
+           'self._decoder.decode': may_raise(ret('str', 'decoded'), 'UnicodeDecodeError'),
+           'self._session.eof_received': ret('bool', 'keep_open'), 'self.write_eof': send_side_untouched_stub,
+           'self._loop.call_soon': noop('call_soon')},
+    loops={1: LoopSpec(
+        header='self._recv_buf and (not self._recv_paused)',
+        modifies=['_recv_buf', '_recv_window', '_recv_paused'],
+        invariant=lambda c: z3.And(recv_inv(c), credit_inv(c),
+                                   c.new('_init_recv_window') == c.at_entry('_init_recv_window')),
+        variant=lambda c: z3.Length(c.new('_recv_buf')),
+        lemmas=flush_recv_lemmas)},
+    # every _deliver_data call of the loop carries the obligation len(chunk) <= _recv_window (pre-at-call)
+    requires=lambda c: z3.And(recv_inv(c, new=False), credit_inv(c, new=False),
+                              c.old('_init_recv_window') < 2 ** 32, decoder_inv(c)),
+    ensures=[('class-inv(window-never-negative-after-a-paused-buffer-is-flushed)', lambda c: recv_inv(c)),
+             ('buffered-bytes-stay-within-the-advertised-window', lambda c: credit_inv(c))],
+    raises={'ProtocolError': True,
+            # `assert self._session is not None`: only on a channel that was already cleaned up
+            'AssertionError': lambda c: c.is_none(c.oldv('_session'))})
+
+
 # ------------------------------------------------------------------ receive credit (also while paused)
-total = z3.Function('total_bytes', S.SEQ, z3.IntSort())     # sum of chunk lengths: recursive, instances only
-
-
 def credit(c):
     """what the peer may still send = window advertised - bytes already accepted.  asyncssh decrements
     _recv_window on *delivery*, so bytes accepted but still buffered have to be subtracted"""
     return c.old('_recv_window') - total(c.old('_recv_buf'))
+
+
+def credit_requires(c):
+    return z3.And(recv_inv(c, new=False), packet_wf(c, c.argv('packet')),
+                  total(c.old('_recv_buf')) >= 0,
+                  z3.Implies(z3.Length(c.old('_recv_buf')) == 0, total(c.old('_recv_buf')) == 0),
+                  z3.Implies(z3.Length(c.old('_recv_buf')) > 0, total(c.old('_recv_buf')) >= 1))
+
+
+def within_credit(c):
+    """this is the precondition of _accept_data (len(data) <= window - buffered), i.e. what establishes INV-CREDIT"""
+    return z3.Length(c.events('accept')[0][1][0].z) <= credit(c) if c.events('accept') else z3.BoolVal(True)
 
 
 process_data_credit = Spec(
@@ -261,18 +492,79 @@ process_data_credit = Spec(
     params=dict(_pkttype='int', _pktid='int', packet='obj:SSHPacket'),
     classes=dict(CHAN_CLASSES, **PACKET_CLASSES), inline=dict(PACKET_INLINE), truthy=PACKET_TRUTHY,
     stubs={'self._accept_data': accept_stub},
-    requires=lambda c: z3.And(recv_inv(c, new=False), packet_wf(c, c.argv('packet')),
-                              total(c.old('_recv_buf')) >= 0,
-                              z3.Implies(z3.Length(c.old('_recv_buf')) == 0, total(c.old('_recv_buf')) == 0),
-                              z3.Implies(z3.Length(c.old('_recv_buf')) > 0, total(c.old('_recv_buf')) >= 1)),
-    ensures=[('accepted-only-within-advertised-credit',
-              lambda c: z3.Length(c.events('accept')[0][1][0].z) <= credit(c) if c.events('accept')
-              else z3.BoolVal(True))],
+    requires=credit_requires,
+    ensures=[('accepted-only-within-advertised-credit', within_credit)],
     raises={'ProtocolError': True, 'PacketDecodeError': True})
 process_data_credit.tag = 'credit'
 
+process_extended_data_credit = Spec(
+    PROP, 'channel', 'SSHChannel._process_extended_data', self_class='SSHChannel',
+    params=dict(_pkttype='int', _pktid='int', packet='obj:SSHPacket'),
+    classes=EXT_CLASSES, inline=dict(PACKET_INLINE), truthy=PACKET_TRUTHY,
+    stubs={'self._accept_data': accept_stub},
+    requires=credit_requires,
+    ensures=[('accepted-only-within-advertised-credit', within_credit)],
+    raises={'ProtocolError': True, 'PacketDecodeError': True})
+process_extended_data_credit.tag = 'credit'
 
-# ------------------------------------------------------------------ max packet size >= 1 where it is stored
+
+# ------------------------------------------------------------------ the peer's limits where they are taken from the wire
+# RFC 4254 5.1: CHANNEL_OPEN = string type, uint32 sender channel, uint32 initial window size, uint32 maximum packet
+# size;  CHANNEL_OPEN_CONFIRMATION = uint32 recipient, uint32 sender, uint32 initial window, uint32 maximum packet.
+# What is stored in _send_window / _send_pktsize must BE those two fields of this packet (the maximum packet size
+# minus the documented dropbear work-around), and it must satisfy the class invariant the flush loop relies on.
+OPEN_CHAN_FIELDS = dict(CHAN_FIELDS, _open_waiter='opt[obj:Waiter]')
+OPEN_CHAN_CLASSES = dict(CHAN_CLASSES, SSHChannel=OPEN_CHAN_FIELDS, Chan=OPEN_CHAN_FIELDS, Waiter={}, Task={})
+
+
+def peer_limits_pre(c):
+    return z3.And(c.arg('send_pktsize') >= 1, c.arg('send_window') >= 0, c.arg('send_window') < 2 ** 32,
+                  c.arg('send_chan') >= 0, c.arg('send_chan') < 2 ** 32)
+
+
+def limits_inv_established(c):
+    """the window / packet-size part of send_inv is established here; the buffer part is only preserved"""
+    return z3.And(z3.Implies(S.chunks_ok(c.old('_send_buf')), send_inv(c)), c.new('_send_buf') == c.old('_send_buf'))
+
+
+def peer_limits_stored(c):
+    ch = c.newv('_send_chan')
+    chan_ok = z3.BoolVal(False) if ch is VNone else \
+        (z3.And(z3.Not(ch.isnone), ch.val.z == c.arg('send_chan')) if isinstance(ch, VOpt) else ch.z == c.arg('send_chan'))
+    return z3.And(c.new('_send_window') == c.arg('send_window'), c.new('_send_pktsize') == c.arg('send_pktsize'),
+                  chan_ok)
+
+
+def peer_limits_untouched(c):
+    return z3.And(c.new('_send_window') == c.old('_send_window'), c.new('_send_pktsize') == c.old('_send_pktsize'),
+                  c.eq(c.oldv('_send_chan'), c.newv('_send_chan')))
+
+
+process_open = Spec(
+    PROP, 'channel', 'SSHChannel.process_open', self_class='SSHChannel',
+    params=dict(send_chan='int', send_window='int', send_pktsize='int', session='any'), classes=OPEN_CHAN_CLASSES,
+    stubs={'self._finish_open_request': ret('opaque:Coroutine', 'finish_open'),
+           'self._conn.create_task': ret('obj:Task', 'task')},
+    requires=peer_limits_pre,
+    modifies=['_send_chan', '_send_window', '_send_pktsize'],
+    ensures=[('stored-limits-are-the-ones-handed-over', peer_limits_stored),
+             ('class-inv(window,max-packet-size)-established', limits_inv_established)],
+    raises={'AssertionError': lambda c: c.is_none(c.oldv('_conn'))})
+
+process_open_confirmation = Spec(
+    PROP, 'channel', 'SSHChannel.process_open_confirmation', self_class='SSHChannel',
+    params=dict(send_chan='int', send_window='int', send_pktsize='int', packet='obj:SSHPacket'),
+    classes=dict(OPEN_CHAN_CLASSES, **PACKET_CLASSES),
+    stubs={'self._open_waiter.cancelled': ret('bool', 'cancelled'), 'self._open_waiter.set_result': noop('waiter_set')},
+    requires=peer_limits_pre,
+    modifies=['_send_chan', '_send_window', '_send_pktsize', '_send_state', '_recv_state', '_open_waiter'],
+    ensures=[('stored-limits-are-the-ones-handed-over', peer_limits_stored),
+             ('class-inv(window,max-packet-size)-established', limits_inv_established),
+             ('accepted-only-while-the-channel-is-being-opened', lambda c: z3.Not(c.is_none(c.oldv('_open_waiter'))))],
+    # an unsolicited confirmation changes nothing
+    raises={'ProtocolError': lambda c: z3.And(c.is_none(c.oldv('_open_waiter')), peer_limits_untouched(c))})
+
+
 def open_handler_stub(cx):
     chan = cx.fresh('obj:Chan', 'chan')
     sess = cx.fresh('any', 'session')
@@ -282,37 +574,91 @@ def open_handler_stub(cx):
 open_handler_stub.modifies = ()
 
 
-def process_open_stub(cx):
-    cx.require('max-packet-size>=1', cx.args[2].z >= 1)
-    cx.require('window-is-uint32', z3.And(cx.args[1].z >= 0, cx.args[1].z < 2 ** 32))
-    return [Out(event=('process_open', tuple(cx.args)))]
+def wire_limits(cx, skip_string):
+    """(sender channel, initial window, maximum packet size) as they stand in the packet this handler was entered
+    with: three consecutive uint32 behind the channel type string (OPEN) / the recipient channel (CONFIRMATION)"""
+    from pyvc.builtins_model import unbe
+    ex = cx.ex
+    p = ex.entry_state.rec(ex.entry_state.env['packet']).fields
+    P, i0 = p['_packet'].z, p['_idx'].z
+    base = i0 + 4 + (unbe(z3.Extract(P, i0, 4)) if skip_string else 0)
+    return tuple(unbe(z3.Extract(P, base + 4 * k, 4)) for k in range(3))
 
 
-process_open_stub.modifies = ()
+def _workaround(cx, version_field):
+    """the documented dropbear work-around (connection.py): one less than advertised when the peer's version string
+    contains b'dropbear' and compression is on"""
+    e = cx.ex.entry_state
+    comp = cx.ex.get_field(e, cx.ex.self_ref, '_compressor')
+    ver = cx.ex.get_field(e, cx.ex.self_ref, version_field).z
+    has_comp = z3.BoolVal(comp is not VNone) if not isinstance(comp, VOpt) else z3.Not(comp.isnone)
+    return z3.If(z3.And(z3.Contains(ver, bytes_const(b'dropbear')), has_comp), 1, 0)
+
+
+def tied_to_wire(callee, skip_string, version_field, event):
+    def stub(cx):
+        chan_no, window, pktsize = wire_limits(cx, skip_string)
+        cx.require('sender-channel-is-the-field-of-the-packet', cx.args[0].z == chan_no)
+        cx.require('window-is-the-initial-window-field-of-the-packet', cx.args[1].z == window)
+        cx.require('max-packet-size-is-the-field-of-the-packet(minus-dropbear-work-around)',
+                   cx.args[2].z == pktsize - _workaround(cx, version_field))
+        cx.require('max-packet-size>=1', cx.args[2].z >= 1)
+        cx.require('window-is-uint32', z3.And(cx.args[1].z >= 0, cx.args[1].z < 2 ** 32))
+        outs = contract_stub(callee)(cx)
+        outs[0].event = (event, tuple(cx.args))
+        return outs
+    stub.modifies = ()
+    stub.spec_getter = callee
+    return stub
+
 
 OPEN_CONN = {'_client_version': 'bytes', '_server_version': 'bytes', '_compressor': 'opt[obj:Compressor]',
              '_channels': 'dict[int,obj:Chan]'}
+OPEN_CONN_CLASSES = dict({'SSHConnection': OPEN_CONN, 'Compressor': {}, 'Chan': OPEN_CHAN_FIELDS, 'Waiter': {},
+                          'Session': {}, 'Decoder': {}, 'Conn': {}}, **PACKET_CLASSES)
 
 channel_open = Spec(
     PROP, 'connection', 'SSHConnection._process_channel_open', self_class='SSHConnection',
     params=dict(_pkttype='int', _pktid='int', packet='obj:SSHPacket'),
-    classes=dict({'SSHConnection': OPEN_CONN, 'Compressor': {}, 'Chan': {}}, **PACKET_CLASSES),
+    classes=OPEN_CONN_CLASSES,
     inline=dict(PACKET_INLINE), truthy=PACKET_TRUTHY,
     stubs={'map_handler_name': ret('str', 'hname'), 'getattr': ret('opt[opaque:Handler]', 'handler'),
            'callable': lambda cx: VBool(z3.Not(cx.args[0].isnone)) if isinstance(cx.args[0], VOpt)
            else VBool(cx.args[0] is not VNone),
-           'handler': open_handler_stub, 'chan.process_open': process_open_stub,
+           'handler': open_handler_stub,
+           'chan.process_open': tied_to_wire(lambda: process_open, True, '_client_version', 'process_open'),
            'self.send_channel_open_failure': noop('open_failure')},
     requires=lambda c: packet_wf(c, c.argv('packet')),
     ensures=[('opened-xor-refused', lambda c: z3.BoolVal(
         len(c.events('process_open')) + len(c.events('open_failure')) == 1))],
-    raises={'ProtocolError': True, 'PacketDecodeError': True})
+    raises={'ProtocolError': True, 'PacketDecodeError': True,
+            # `assert self._conn is not None` inside process_open: a channel object that was already cleaned up
+            'AssertionError': True})
 
 channel_open_conf = Spec(
     PROP, 'connection', 'SSHConnection._process_channel_open_confirmation', self_class='SSHConnection',
     params=dict(_pkttype='int', _pktid='int', packet='obj:SSHPacket'),
-    classes=dict({'SSHConnection': OPEN_CONN, 'Compressor': {}, 'Chan': {}}, **PACKET_CLASSES),
+    classes=OPEN_CONN_CLASSES,
     inline=dict(PACKET_INLINE), truthy=PACKET_TRUTHY,
-    stubs={'chan.process_open_confirmation': process_open_stub},
+    stubs={'chan.process_open_confirmation': tied_to_wire(lambda: process_open_confirmation, False,
+                                                          '_server_version', 'process_open_confirmation')},
     requires=lambda c: packet_wf(c, c.argv('packet')),
     raises={'ProtocolError': True, 'PacketDecodeError': True})
+
+
+# ------------------------------------------------------------------ induction lemma for total_bytes
+def extra_checks(tier, seed):
+    """total_bytes(s) >= 0 for every finite chunk list, by induction on the list: base total([]) = 0 >= 0; step: if
+    total(t) >= 0 then total([x] ++ t) = len(x.data) + total(t) >= 0.  Both are checked by the solver from the
+    defining equations only (total_bytes itself stays uninterpreted)."""
+    t = z3.Const('lemma_t', S.SEQ)
+    x = z3.Const('lemma_x', S.CHS)
+    sol = z3.Solver()
+    sol.set('timeout', 20000)
+    cons = z3.Concat(z3.Unit(x), t)
+    sol.add(total_empty(), total(cons) == z3.Length(S.data_of(x)) + total(t))      # definition
+    sol.add(z3.Not(z3.And(total(z3.Empty(S.SEQ)) >= 0, z3.Implies(total(t) >= 0, total(cons) >= 0))))
+    res = sol.check()
+    return {'lemmas': [{'name': 'C08.lemma#total_bytes-is-non-negative(induction: base and step)',
+                        'verdict': 'proved' if res == z3.unsat else ('refuted' if res == z3.sat else 'unknown'),
+                        'reason': str(res), 'backend': 'z3', 'replayed': True}], 'bounded': []}
